@@ -41,7 +41,8 @@ def check_cuts_array(
             f"{last_dim_size} in the last dimension."
         )
 
-    interval_sizes = np.diff(cuts, axis=1)
+    # Differences of unsigned integers would wrap around instead of becoming negative.
+    interval_sizes = np.diff(cuts.astype(np.int64), axis=1)
     if not np.all(interval_sizes >= min_size):
         raise ValueError(
             "All rows in `cuts` must be strictly increasing and each entry must"
